@@ -128,6 +128,7 @@ fn run(o: &Opts) -> i32 {
     let mut samples: Vec<String> = Vec::new();
     let mut violations: Vec<String> = Vec::new();
     let mut inconclusive: Vec<String> = Vec::new();
+    let mut kept_per_class: std::collections::BTreeMap<String, u32> = Default::default();
     let seeds: Vec<u64> = match o.replay {
         Some(cs) => vec![cs],
         None => (0..o.cases)
@@ -156,7 +157,17 @@ fn run(o: &Opts) -> i32 {
         }
         if !rep.violations.is_empty() {
             counts.inc("violating_cases");
-            if violations.len() < 5 {
+            let sigclass = rep.violations[0]
+                .split("[sig:")
+                .nth(1)
+                .and_then(|x| x.split(']').next())
+                .unwrap_or("unclassified")
+                .to_string();
+            counts.inc(&format!("violations:{sigclass}"));
+            let kept = kept_per_class.entry(sigclass.clone()).or_insert(0u32);
+            let cap = if sigclass == "unclassified" { 10 } else { 2 };
+            if *kept < cap {
+                *kept += 1;
                 let dir = format!("{}/{}", o.out, o.prop);
                 let _ = std::fs::create_dir_all(&dir);
                 let path = format!("{dir}/{}-{}-{}.json", o.tier, o.seed, cs);
